@@ -7,6 +7,7 @@ import sys
 import uuid
 
 from symcheck.env import (
+    seam_check,
     ENV,
     POLL,
     HarnessError,
@@ -116,6 +117,7 @@ def classify(out: Outcome, fn):
     except HarnessError:
         raise
     except Exception as e:
+        seam_check(e)
         out.kind, out.text, out.exc = "raised", type(e).__name__, e
     return out
 
